@@ -137,7 +137,9 @@ def lexical_rule(chk, repo):
 
 
 def writer_texts(P):
-    fams = list(one_gate_circuits(max_arity=3)) + [(k, c) for k, c in deep_circuits()]
+    from ..corpus import corpus
+
+    fams = list(one_gate_circuits(max_arity=3)) + [(k, c) for k, c in deep_circuits()] + [(f"corpus::{k}", c) for k, tags, c in corpus("quick", exclude=("x",))]
     fams.append(("const-fed", build({"a": ("input", []), "k": ("1", []), "z": ("0", []), "g": ("and", ["a", "k"]), "h": ("or", ["g", "z"])}, outputs=["h", "g"], name="cf")))
     ff = RefBlackBox("dff", ["clk", "d"], ["q", "qn"])
     bbs = [ff]
